@@ -17,9 +17,13 @@ import (
 type monC07 struct {
 	live map[string]string // decoded cookie bytes -> pid it was issued to
 	seen map[string]int    // pid -> number of KB cookies already folded in
+	// askedO2[b]: did the browser's LATEST OAuth2 start request ask to be remembered?
+	askedO2 map[int]bool
 }
 
-func (c *monC07) Init(m *Machine) { c.live, c.seen = map[string]string{}, map[string]int{} }
+func (c *monC07) Init(m *Machine) {
+	c.live, c.seen, c.askedO2 = map[string]string{}, map[string]int{}, map[int]bool{}
+}
 
 func cookieKey(c string) (string, bool) {
 	raw, err := base64.URLEncoding.DecodeString(c)
@@ -152,7 +156,7 @@ func (c *monC07) After(m *Machine, s *Step) *Violation {
 		case "login", "otplogin":
 			asked = op.F && after == s.Pid
 		case "o2cb":
-			asked = strings.Contains(r.SessBefore[authboss.SessionOAuth2Params], `"rm":"true"`) && after != ""
+			asked = c.askedO2[b] && after != ""
 		}
 		if !asked && rotatedFor == "" {
 			return violation("C07", "cookie-issued-unasked:"+op.K, "%s request issued a remember cookie although the user did not ask to be remembered (rm flag %v)", op.K, op.F)
@@ -180,6 +184,12 @@ func (c *monC07) After(m *Machine, s *Step) *Violation {
 		if asked {
 			m.flag("issued:" + pidClass(owner))
 		}
+	}
+	if op.K == "o2start" && r.Wrote && r.Rec.HandlerErr == nil {
+		c.askedO2[b] = op.F
+	}
+	if op.K == "newsess" {
+		delete(c.askedO2, b)
 	}
 	if op.K == "logout" && (op.S == "" || op.S == m.W.AB.Config.Modules.LogoutMethod) && hasC {
 		return violation("C07", "logout-kept-cookie", "logout left the remember cookie on the client")
